@@ -602,6 +602,8 @@ public:
       c.tight_pools = r.chance(0.35);
       c.pool_slack = c.tight_pools && r.chance(0.5) ? 1 + (int)r.below(2) : 0;
     }
+    if ((prop == "C03" || prop == "C12") && c.spectrum == 1)
+      c.metals = r.chance(0.7);
     if (c.trackers && r.chance(0.8))
       c.tracker_variant = (int)r.range(1, 9);
     if (prop == "C12" && r.chance(0.4))
